@@ -4,7 +4,7 @@ CONSTANTS
   Stores = {"s1", "s2"}
   TStore = "t1"
   Keys = {"a", "ab", "abc", "b"}
-  Vals = {"x", "y"}
+  Vals = {"x", "y", ""}
   Prunings <- PruningsSel
   PrunSel = {1, 2, 3, 4, 5, 6, 7, 8, 9, 10, 11, 12, 13}
   MaxVer = 80
